@@ -417,7 +417,7 @@ func (c *Ctx) probeContext() {
 	// the function that sends the probe: whichever function reachable from checkBackendHealth (itself
 	// included) calls (*http.Client).Do
 	var ph *ssa.Function
-	if root := p.Fn("internal/loadbalancer", "LoadBalancer", "checkBackendHealth"); root != nil {
+	if root := c.probeRoot(); root != nil {
 		seenF := map[*ssa.Function]bool{}
 		var find func(f *ssa.Function, d int)
 		find = func(f *ssa.Function, d int) {
@@ -483,7 +483,7 @@ func (c *Ctx) probeContext() {
 		c.Fail("probe-carries-context", construct, p.Pos(ph.Pos()), bad[0], bad...)
 	}
 	// ctx.Done() tested before probing
-	cb := p.Fn("internal/loadbalancer", "LoadBalancer", "checkBackendHealth")
+	cb := c.probeRoot()
 	construct = "loadbalancer.(*LoadBalancer).checkBackendHealth"
 	if cb == nil {
 		c.Missing("probe-carries-context", construct)
